@@ -45,6 +45,8 @@ def main():
 
     try:
         tb = core.build_harness()
+        if getattr(mod, "NEEDS_CVM", False):
+            core.build_cvm()
         tl = core.build_lean(["pmodel", "PortusModel.Props." + prop])
         notes.append("harness build %.1fs, lake build %.1fs" % (tb, tl))
         built = True
@@ -57,7 +59,7 @@ def main():
         # ---------------- proof audit
         bad = core.grep_audit()
         proof["forbidden_tokens"] = bad
-        ax = core.axiom_audit(prop, mod.THEOREMS)
+        ax = core.axiom_audit(prop, mod.THEOREMS) if mod.THEOREMS else {}
         proof["obligations"] = len(mod.THEOREMS)
         for t in mod.THEOREMS:
             axs = ax.get(t)
@@ -76,11 +78,13 @@ def main():
         if a.replay:
             rp = json.load(open(a.replay))
             cases = []
-            for c in rp.get("cases", [rp.get("case")] if rp.get("case") else []):
+            metas = rp.get("metas") or []
+            for k, c in enumerate(rp.get("cases", [rp.get("case")] if rp.get("case") else [])):
                 cmd, _, args = c.partition(" ")
                 # stored lines carry an id as second token
                 toks = args.split(" ", 1)
-                cases.append(Case(cmd, toks[1] if len(toks) > 1 else "", origin="replay"))
+                m = metas[k] if k < len(metas) else None
+                cases.append(Case(cmd, toks[1] if len(toks) > 1 else "", origin="replay", meta=tuple(m) if m else None))
         else:
             cases = core.load_corpus(prop) + list(mod.gen(ctx))
         seen = set()
@@ -119,7 +123,7 @@ def main():
         oracle_fail = [omap[i] for i in omap if not ores.get(i, "NOANSWER").startswith("PASS")]
         # sanity of the oracle itself: it must accept the model's behaviour (that is the theorem)
         mlines = []
-        for c in cases:
+        for c in (cases if getattr(mod, "ORACLE_ON_MODEL", True) else []):
             o = mod.oracle(c, model.get(c.id, "NOANSWER"))
             if o is not None:
                 mlines.append("%s %s %s" % (o[0], c.id, o[1]))
@@ -144,6 +148,7 @@ def main():
             "disagreements": len(disagree),
             "oracle_evaluations_on_impl": len(olines),
             "oracle_failures_on_impl": len(oracle_fail),
+            "oracle_answers": dict(collections.Counter(v for v in ores.values())),
             "oracle_rejections_of_model": len(oracle_rejects_model),
             "samples": [{"case": core.short(c.line()), "impl": core.short(impl.get(c.id, "")),
                          "model": core.short(model.get(c.id, ""))}
@@ -171,8 +176,8 @@ def main():
             if unk:
                 c = min(unk, key=lambda c: len(c.args))
                 violations.append(("failing-input", {
-                    "property": prop, "kind": "failing-input", "case": c.line(),
-                    "cases": [x.line() for x in unk[:20]],
+                    "property": prop, "kind": "failing-input", "case": c.line(), "meta": c.meta,
+                    "cases": [x.line() for x in unk[:20]], "metas": [x.meta for x in unk[:20]],
                     "observed": impl.get(c.id), "model": model.get(c.id), "oracle": ores.get(c.id),
                     "oracle_name": "%s.check (PortusModel/Props/%s.lean)" % (prop, prop),
                     "seed": seed, "tier": tier, "failing_inputs": len(unk)}))
